@@ -417,4 +417,106 @@ theorem file_bytes (w : World) (root : Path) (ps3 : Bool) (clk : Clock) (filler 
       exact ⟨f, List.mem_filter.mpr ⟨hall, by simpa using h0⟩, rfl⟩
     exact (Ps3.Props.C07.extent_content _ _ hwf ⟨f.ino, f.size, f.rLBA + L.filesLBA⟩ hmem).1
 
+
+/-! ### `Fits` reduced to: no directory holds 4 GiB of records -/
+
+/-- the only thing about a generated image that could fail to fit a 32-bit field -/
+def DirLensFit (L : Layout) (joliet : Bool) : Prop := ∀ j, j < L.items.length → dirLen L.items joliet j < 2 ^ 32
+
+open Ps3.Proof.BuildWF in
+theorem runOk_bounds (w : World) : ∀ (fs : List FileRef) (s e : Nat), runOk w s fs e →
+    s ≤ e ∧ ∀ f ∈ fs, f.rLBA + sectors f.size ≤ e := by
+  intro fs
+  induction fs with
+  | nil => intro s e h; exact ⟨Nat.le_of_eq h, fun f hf => by cases hf⟩
+  | cons g rest ih =>
+    intro s e h
+    obtain ⟨h1, _, hrest⟩ := h
+    obtain ⟨hle, hall⟩ := ih _ _ hrest
+    refine ⟨by omega, ?_⟩
+    intro f hf
+    rcases List.mem_cons.mp hf with rfl | hf
+    · omega
+    · exact hall f hf
+
+/-- every extent of a file starts inside the file's own sector run -/
+theorem fileRecs_loc (f : FileRef) (joliet : Bool) (F : Nat) : ∀ r ∈ fileRecs f joliet F,
+    r.extLoc ≤ f.rLBA + sectors f.size + F := by
+  intro r hr
+  have hpart : multiExtentPart = 2 ^ 32 - 2048 := by decide
+  unfold fileRecs at hr
+  dsimp only at hr
+  split at hr
+  · rw [List.mem_map] at hr
+    obtain ⟨i, hi, hr⟩ := hr
+    rw [List.mem_range] at hi
+    have hP : 0 < multiExtentPart := by rw [hpart]; decide
+    have htot := Ps3.Props.C07.multi_extent_total f.size multiExtentPart hP
+    generalize f.size / multiExtentPart + (if f.size % multiExtentPart > 0 then 1 else 0) = parts at hi htot hr
+    have hlo := (htot.2 (by omega)).2
+    -- i * sectors P ≤ (parts-1) * sectors P < sectors size
+    have h1 : i * sectors multiExtentPart ≤ (parts - 1) * sectors multiExtentPart := Nat.mul_le_mul_right _ (by omega)
+    have h2 : (parts - 1) * sectors multiExtentPart * sectorSize < sectors f.size * sectorSize := by
+      rw [Nat.mul_assoc, sectors_part]
+      have := Proof.Viso.sectors_mul_ge f.size
+      omega
+    have h3 := Nat.lt_of_mul_lt_mul_right h2
+    have hloc : r.extLoc = f.rLBA + i * sectors multiExtentPart + F := by
+      rw [← hr]; split <;> rfl
+    rw [hloc]; omega
+  · simp only [List.mem_singleton] at hr
+    subst hr
+    show f.rLBA + F ≤ _
+    omega
+
+open Ps3.Proof.BuildWF in
+/-- **`Fits` holds for every generated image in which no single directory extent reaches 4 GiB**: sector
+    numbers are below 2^31 (the tree would have been refused otherwise), file extent lengths are cut to fit -/
+theorem fits_of_dirLens (w : World) (root : Path) (ps3 : Bool) (L : Layout) (hL : layoutOf w root ps3 = some L)
+    (joliet : Bool) (h : DirLensFit L joliet) : Fits L joliet := by
+  have F := layoutOf_facts w root ps3 L hL
+  have hv := volume_fits w root ps3 L hL
+  have hmax : maxSector = 2 ^ 31 - 1 := rfl
+  have hs : sectorSize = 2048 := rfl
+  obtain ⟨e, hrun, hvol⟩ := F.run
+  -- a directory location is a sector of the metadata area
+  have hloc : ∀ j, j < L.items.length → dirLoc L.items joliet (dirBase L joliet) j < 2 ^ 32 := by
+    intro j hj
+    have := dir_inside_meta w L F joliet j hj
+    rw [hs] at this
+    omega
+  intro k it hk r hr
+  have hklt := lt_length_of_getElem? hk
+  unfold recsOfDir finalRecs at hr
+  simp only [List.mem_append, List.mem_cons, List.mem_flatten, List.mem_map, List.mem_filterMap] at hr
+  rcases hr with ((rfl | rfl | hnil) | ⟨l, ⟨f, hf, rfl⟩, hr⟩) | ⟨j, hj, hjr⟩
+  · exact ⟨hloc k hklt, h k hklt⟩
+  · cases hp : parentIdx L.items it L.rootLen with
+    | none => simp only []; exact ⟨hloc k hklt, h k hklt⟩
+    | some p =>
+      have hplt : p < L.items.length := by
+        unfold parentIdx at hp
+        split at hp
+        · cases hp
+        · exact (List.findIdx?_eq_some_iff_getElem.mp hp).1
+      simp only []
+      exact ⟨hloc p hplt, h p hplt⟩
+  · cases hnil
+  · refine ⟨?_, Ps3.Props.C07.extent_len_fits f joliet L.filesLBA r hr⟩
+    have hall : f ∈ allFiles L.items := by
+      unfold allFiles
+      rw [List.mem_flatten]
+      exact ⟨it.files, List.mem_map.mpr ⟨it, List.mem_of_getElem? hk, rfl⟩, hf⟩
+    have hb := (runOk_bounds w _ _ _ hrun).2 f hall
+    have := fileRecs_loc f joliet L.filesLBA r hr
+    omega
+  · unfold childrenIdx at hj
+    rw [List.mem_filter, List.mem_range] at hj
+    cases hc : L.items[j]? with
+    | none => simp [hc] at hjr
+    | some c =>
+      simp only [hc, Option.map_some, Option.some.injEq] at hjr
+      subst hjr
+      exact ⟨hloc j hj.1, h j hj.1⟩
+
 end Ps3.Proof.IsoTree
